@@ -479,6 +479,25 @@ func gen(c *lib.Ctx) {
 		}
 		send(rep.b, "reflected-reply")
 	}
+	// nothing may be left over on any client socket: every reply went to the socket that sent
+	// the request (a reply to a different port would have been counted against another exchange
+	// or be waiting here)
+	stray := 0
+	sbuf := make([]byte, 4096)
+	for _, cl := range clients {
+		for {
+			cl.SetReadDeadline(time.Now().Add(30 * time.Millisecond))
+			if _, _, err := cl.ReadFromUDPAddrPort(sbuf); err != nil {
+				break
+			}
+			stray++
+		}
+	}
+	c.Count("listener:stray-check")
+	if stray > 0 && notExec == 0 {
+		c.Fail("C09:listener:stray-reply", "datagrams arrived on client sockets outside any exchange (a reply sent twice or to the wrong port)",
+			[]string{"ip.dgram 23" + strings.Repeat("00", 47) + " nts=0"}, map[string]any{"stray": stray})
+	}
 	if notExec > 0 {
 		c.NotExecuted(fmt.Sprintf("%d loopback exchanges got no sentinel reply within the timeout (sandbox)", notExec))
 	}
